@@ -99,6 +99,11 @@ Definition verdicts_ok (q : request) (o : xobs) : bool :=
   forallb (fun p => match vrun p (map (fun e => (e_kind e, e_pos e)) (x_events o)) with Some _ => true | None => false end)
           (seq 0 (length (q_stack q))).
 
+(* exhaustion is final (Spec/Verdict.v xstep): nothing of a retry policy is logged after its OnRetriesExceeded *)
+Definition exhaustion_ok (q : request) (o : xobs) : bool :=
+  forallb (fun p => match xrun p (map (fun e => (e_kind e, e_pos e)) (x_events o)) with Some _ => true | None => false end)
+          (seq 0 (length (q_stack q))).
+
 Definition c16_ok (q : request) (o : xobs) : bool :=
   let evs := x_events o in
   let '(ls, lf, ld) := q_lsn q in
@@ -111,7 +116,7 @@ Definition c16_ok (q : request) (o : xobs) : bool :=
   && forallb (fun p => retry_pairs_ok p false evs) (seq 0 (length (q_stack q)))
   && (count_kind KFnStart evs =? count_kind KFnEnd evs)
   && breaker_events_match (q_blsn q) None evs
-  && verdicts_ok q o.
+  && verdicts_ok q o && exhaustion_ok q o.
 
 (* ---- C02: in any stack, a retry policy with a bound starts at most maxRetries retries within one execution -- however often an
         enclosing policy re-enters it, and whatever other executions go through the same policy object meanwhile;
@@ -127,7 +132,7 @@ Definition retries_bounded (q : request) (o : xobs) : bool :=
                      end) (combine (seq 0 (length (q_stack q))) (q_stack q)).
 
 Definition c02_ok (q : request) (o : xobs) : bool :=
-  retries_bounded q o &&
+  retries_bounded q o && exhaustion_ok q o &&
   match q_stack q with
   | [PRetry cfg] =>
       let n := count_kind KFnStart (x_events o) in
